@@ -92,8 +92,11 @@ def bins(start, stop, fmt="gff", one=True):
     if start >= MAX_CHROM_SIZE or stop >= MAX_CHROM_SIZE:
         if one:
             return 1
-        else:
+        elif start >= MAX_CHROM_SIZE:
             return {1}
+        # A range that begins inside the binned region still overlaps the fine bins below
+        # MAX_CHROM_SIZE; features located there are assigned those bins, so keep them in the set.
+        stop = MAX_CHROM_SIZE - 1
 
     # Jump to highest resolution bin that will fit these coords (depending on
     # whether we have a BED or GFF-style coordinate).
